@@ -104,15 +104,22 @@ class BasePort:
         is garbage collected.
         """
         with self._lock:
-            if not self.closed:
-                if hasattr(self, 'autoreset') and self.autoreset:
-                    try:
-                        self.reset()
-                    except OSError:
-                        pass
+            if not self.closed and not getattr(self, '_closing', False):
+                # A device may call close() from inside _send() when it
+                # finds the other end gone. Don't start over if that
+                # happens while the reset messages are being sent.
+                self._closing = True
+                try:
+                    if hasattr(self, 'autoreset') and self.autoreset:
+                        try:
+                            self.reset()
+                        except OSError:
+                            pass
 
-                self._close()
-                self.closed = True
+                    self._close()
+                    self.closed = True
+                finally:
+                    self._closing = False
 
     def __del__(self):
         self.close()
